@@ -26,7 +26,7 @@ structure Entry where
   cmd : Bytes
   /-- `none`: a command without payload (`payload_size != 0` is `BadData`, the payload is not read) -/
   body : Option (Codec Msg)
-  /-- the message returned by a payload-less arm -/
+  /-- the message returned by a payload-less arm (unused — `.getAddr` — when there is a body) -/
   unit : Msg
 
 /-- lift a payload codec to `Message`, with the arm's `validate()` -/
@@ -244,5 +244,16 @@ def writeMessage (H : Bytes → Bytes) (magic : Bytes) (m : Msg) : Option Bytes 
     match e.body with
     | none => some (messageHeaderC.enc (headerFor H magic e m))
     | some c => some (messageHeaderC.enc (headerFor H magic e m) ++ c.enc m)
+
+/-- in-range messages: the payload is in range for its codec (including what the `validate()` of
+    its arm demands), and its size fits the header's `u32` and — except for `block` — the
+    `MAX_PAYLOAD_SIZE` limit `Message::read` enforces. -/
+def Msg.InRange (m : Msg) : Prop :=
+  match entryOf m with
+  | none => False
+  | some e =>
+    match e.body with
+    | none => True
+    | some c => c.wf m ∧ c.size m < 2 ^ 32 ∧ (e.cmd = eBlock.cmd ∨ c.size m ≤ MAX_PAYLOAD_SIZE)
 
 end CG.Model.Wire
